@@ -12,6 +12,8 @@ import PoetryVerif.Proofs.VRangeInv
 import PoetryVerif.Proofs.VRangeSelf
 import PoetryVerif.Proofs.VRangePredU
 import PoetryVerif.Proofs.VRangeSharp
+import PoetryVerif.Proofs.VRangeWalkAt
+import PoetryVerif.Proofs.VRangeInterU
 
 set_option linter.unusedSimpArgs false
 set_option linter.unusedVariables false
@@ -257,6 +259,35 @@ theorem halfopen_predicates_sound (r s : VRange) (hr : r.WF) (hs : s.WF) (or' : 
     ⟨fun m hm => Or.inl (ht.1 m hm), fun M hM => Or.inl (ht.2 M hM)⟩
   exact ⟨fun h => range_allows_all_sound_at r s hr hs h p hp (fine r or') (fine s os),
     fun h => range_allows_any_false_sound_at r s hr hs h p hp (fine r or') (fine s os)⟩
+
+/-- **`union.allows_all(b)` / `union.allows_any(b)` over range members, at a probe fine for every member**
+(`RC.RngAt`: a range member whose exclusive lower / inclusive upper end the probe is regular for), without any
+regularity of the bounds among themselves: both merge walks return, a "yes" of `allows_all` and a "no" of
+`allows_any` are right at the probe -/
+theorem union_predicates_sound_at (rs : List RC) (b : VC) (hs : SortedRC rs) (hb : b.WF) (p : Version)
+    (hp : p.wf = true) (hrs : ∀ c ∈ rs, c.RngAt p) (hbm : ∀ c ∈ b.flatten, c.RngAt p) :
+    (∃ x, VC.allowsAll (.union rs) b = .ok x ∧ (x = true → b.allowsPlain p = true → anyAllows rs p = true)) ∧
+    (∃ y, VC.allowsAny (.union rs) b = .ok y ∧
+      (y = false → ¬ (anyAllows rs p = true ∧ b.allowsPlain p = true))) := by
+  constructor
+  · obtain ⟨x, h1, h2⟩ := unionAllowsAllLoop_at p hp (rs.length + b.flatten.length + 1) rs b.flatten (by omega) hrs hbm
+    exact ⟨x, h1, h2⟩
+  · obtain ⟨y, h1, h2⟩ := unionAllowsAnyLoop_at p hp (rs.length + b.flatten.length + 1) rs b.flatten (by omega) hrs hbm
+      hs (SortedRC_flatten_of_WF b hb)
+    exact ⟨y, h1, h2⟩
+
+/-- **between unions of half-open ranges** (every disjunction of `^V`, `~V`, `~=V`, `==V.*`, `>=V,<W` clauses)
+**both predicates are right on ALL versions** -/
+theorem halfopen_union_predicates_sound (rs : List RC) (b : VC) (hs : SortedRC rs) (hb : b.WF)
+    (hrs : ∀ c ∈ rs, ∃ r, c = .rng r ∧ r.WF ∧ r.HalfOpen) (hbm : ∀ c ∈ b.flatten, ∃ r, c = .rng r ∧ r.WF ∧ r.HalfOpen)
+    (p : Version) (hp : p.wf = true) :
+    (∃ x, VC.allowsAll (.union rs) b = .ok x ∧ (x = true → b.allowsPlain p = true → anyAllows rs p = true)) ∧
+    (∃ y, VC.allowsAny (.union rs) b = .ok y ∧
+      (y = false → ¬ (anyAllows rs p = true ∧ b.allowsPlain p = true))) := by
+  have fine : ∀ c : RC, (∃ r : VRange, c = .rng r ∧ r.WF ∧ r.HalfOpen) → c.RngAt p := by
+    rintro c ⟨r, rfl, hw, ho⟩
+    exact ⟨r, rfl, hw, ⟨fun m hm => Or.inl (ho.1 m hm), fun M hM => Or.inl (ho.2 M hM)⟩⟩
+  exact union_predicates_sound_at rs b hs hb p hp (fun c hc => fine c (hrs c hc)) (fun c hc => fine c (hbm c hc))
 
 /-- the complement: an exclusive lower end.  `(>1.0).allows_all(>=1.0.post1)` answers yes — the comparison sees
 `1.0 < 1.0.post1` — although `>=1.0.post1` admits `1.0.post1`, which `>1.0` rejects (PEP 440: `>V` excludes the
